@@ -5,7 +5,10 @@ use std::time::Duration;
 use log::info;
 use saito_core::core::consensus::peers::peer::PeerStatus;
 use tokio::sync::mpsc::{Receiver, Sender};
+#[cfg(not(saito_verif))]
 use tokio::sync::RwLock;
+#[cfg(saito_verif)]
+use saito_core::core::util::verif::RwLock;
 
 use saito_core::core::consensus::blockchain::Blockchain;
 use saito_core::core::consensus::peers::peer_collection::PeerCollection;
